@@ -23,10 +23,11 @@ MUTATIONS = [
     ("encodeFieldOptions drops NoStandardView", "\t\tNoStandardView: o.NoStandardView,\n", ""),
     ("encodeFieldRows swaps key and id", "\t\t\t\tField:  fr.Field,\n\t\t\t\tRowKey: fr.RowKey,\n", "\t\t\t\tField:  fr.RowKey,\n\t\t\t\tRowKey: fr.Field,\n"),
     ("decodeQueryResult panics again on an unknown type", "\treturn nil, fmt.Errorf(\"unknown query result type: %d\", pb.Type)\n", "\tpanic(fmt.Sprintf(\"unknown type: %d\", pb.Type))\n"),
+    ("decodeFieldStatus (translated: Bitmap.Slice / roaring.NewBitmap) drops the name", "\tm.Name = pb.Name\n\tm.AvailableShards = roaring.NewBitmap(pb.AvailableShards...)\n", "\tm.AvailableShards = roaring.NewBitmap(pb.AvailableShards...)\n"),
     ("hand-modelled encodeAttr edited", "\tcase uint64:\n\t\tpb.Type = attrTypeInt\n\t\tpb.IntValue = int64(value)\n", "\tcase uint64:\n\t\tpb.Type = attrTypeInt\n\t\tpb.IntValue = -int64(value)\n"),
     ("unknown construct", "func decodeImportResponse(pb *internal.ImportResponse, m *pilosa.ImportResponse) {\n\tm.Err = pb.Err\n", "func decodeImportResponse(pb *internal.ImportResponse, m *pilosa.ImportResponse) {\n\tfor i := 0; i < 1; i++ {\n\t\tm.Err = pb.Err\n\t}\n"),
 ]
-# quick tier: the two mutations the translator itself rejects (fast); the seven that break a generated
+# quick tier: the two mutations the translator itself rejects (fast); the eight that break a generated
 # proof need a Lean run each and are left to the thorough tier
 todo = MUTATIONS if tier == "thorough" else MUTATIONS[-2:]
 
